@@ -157,6 +157,25 @@ def knot_logs(cls, xs):
 
 
 SIGNATURES = set()
+_DRV_BUILT = [False]
+
+
+def drive(ctx, lines):
+    """the native driver; built (under the shared lake lock) by the first call of a run, then executed directly"""
+    if not _DRV_BUILT[0]:
+        out = ctx.driver(lines)
+        _DRV_BUILT[0] = True
+        return out
+    import subprocess
+    from harness.vlib import lean
+    r = subprocess.run([os.path.join(lean.BIN, 'drv_c07')], input='\n'.join(lines) + '\n', stdout=subprocess.PIPE,
+                       stderr=subprocess.PIPE, text=True, timeout=600)
+    out = r.stdout.split('\n')
+    if out and out[-1] == '':
+        out.pop()
+    if r.returncode != 0 or len(out) != len(lines):
+        raise RuntimeError('driver failed (%d): %d lines for %d inputs; %s' % (r.returncode, len(out), len(lines), r.stderr[-500:]))
+    return out
 
 
 def fail(ctx, sig, desc, rep):
@@ -563,7 +582,7 @@ def policy_stream(ctx, cat):
                     meta.append(m)
                     ctx.case(key=('wl', sp.name, wsub, fb))
     repo.close()
-    outs = ctx.driver(lines)
+    outs = drive(ctx, lines)
     for line, o, m, d in zip(lines, obs, meta, outs):
         ctx.traces += 1
         if o != d:
@@ -706,7 +725,7 @@ def numeric_stream(ctx, cat, plan):
     repo = Repo()
     cases = [numeric_case(ctx, cat, repo, *p) for p in plan]
     repo.close()
-    pol_out = ctx.driver([c['pol'] for c in cases])
+    pol_out = drive(ctx, [c['pol'] for c in cases])
     lines, index = [], []
     for c, po in zip(cases, pol_out):
         spec, shape = c['spec'], c['spec']['shape']
@@ -739,7 +758,9 @@ def numeric_stream(ctx, cat, plan):
             ctx.count('accessor-raised:' + c['st'])
             fail(ctx, 'C07:%s:raises-with-data-present:%s' % (c['name'], c['st']),
                      '%s raised %s: %s although data and wavelength are stored' % (c['name'], c['st'], c['val']), desc)
-            _broke(ctx, 'numeric stream ' + c['name'], dict(input=desc, model=po, implementation=c['st']))
+            if po != 'raises:' + c['st']:
+                ctx.disagreements += 1
+                _broke(ctx, 'numeric stream ' + c['name'], dict(input=desc, model=po, implementation=c['st']))
             continue
         if shape == 'beamCX':
             got = sorted(r.donor_metastable for r in c['val'])
@@ -758,7 +779,7 @@ def numeric_stream(ctx, cat, plan):
                 continue
             lines.append(rate_line(spec['cls'], shape, c['ex'], c['model_wl'], mt, [p[1] for p in pts]))
             index.append((c, wt, res, pts, dict(desc, metastable=m, table=wt)))
-    outs = ctx.driver(lines) if lines else []
+    outs = drive(ctx, lines) if lines else []
     for (c, wt, res, pts, desc), out in zip(index, outs):
         spec, shape = c['spec'], c['spec']['shape']
         mods = [parse_out(t) for t in out.split()]
@@ -866,7 +887,7 @@ def constants_check(ctx):
     for x, w in ((1e-14, 656.28), (3.5e-15, 121.567), (1.0, 1.0), (2.5e-13, 1032.5)):
         lines.append('conv %s %s %s' % (f2b(x), f2b(w), f2b(HC9)))
         vals.append(float(PhotonToJ.to(np.array([x]), w)[0]))
-    for o, v, l in zip(ctx.driver(lines), vals, lines):
+    for o, v, l in zip(drive(ctx, lines), vals, lines):
         ctx.traces += 1
         if not close(b2f(o), v, 1e-12):
             _broke(ctx, 'PhotonToJ', dict(line=l, model=b2f(o), implementation=v))
@@ -922,7 +943,7 @@ def lean_as_is(ctx):
 
 def deviants_tie(ctx):
     """what the generated table says deviates (T side) against what S found on the running code"""
-    out = ctx.driver(['deviants'])[0]
+    out = drive(ctx, ['deviants'])[0]
     pol = [x for x in out.split()[0].split(':', 1)[1].split(',') if x]
     grd = [x for x in out.split()[1].split(':', 1)[1].split(',') if x]
     ctx.extra['table_deviants'] = dict(policy=pol, guards=grd)
@@ -1034,10 +1055,10 @@ def replay(ctx, path):
             stored = [tuple(k) for k in d['stored']]
             root, ch, tags, wls = build_policy_repo(repo, spec, species, stored, d['wavelengths'])
             line, o, m = run_policy(ctx, d['accessor'], spec, root, ch, tags, wls, species, stored, d['null'], d['fallback'], d['extrapolate'])
-            print('implementation: %s   model: %s' % (o, ctx.driver([line])[0]))
+            print('implementation: %s   model: %s' % (o, drive(ctx, [line])[0]))
         elif d.get('kind') == 'wavelength':
             line, o, m = wavelength_case(ctx, repo, getattr(E, d['species']), d['wavelengths'], d['fallback'])
-            print('implementation: %s   model: %s' % (o, ctx.driver([line])[0]))
+            print('implementation: %s   model: %s' % (o, drive(ctx, [line])[0]))
         elif d.get('kind') == 'numeric':
             spec = cat[d['accessor']]
             tab = d['table']
